@@ -2,18 +2,41 @@ package main
 
 import (
 	"fmt"
-	"os"
+	"math/rand"
 
-	"github.com/frankkopp/FrankyGo/internal/config"
-	"github.com/frankkopp/FrankyGo/internal/movegen"
-	"github.com/frankkopp/FrankyGo/internal/position"
+	rc "github.com/frankkopp/FrankyGo/verifh/refchess"
 )
 
 func main() {
-	config.LogLevel = 0
-	for _, fen := range os.Args[1:] {
-		p, _ := position.NewPositionFen(fen)
-		mg := movegen.NewMoveGen()
-		fmt.Println(fen, "legal:", mg.GenerateLegalMoves(p, movegen.GenAll).Len(), "HasLegalMove:", mg.HasLegalMove(p))
+	r := rand.New(rand.NewSource(7))
+	found := map[string]bool{}
+	for try := 0; try < 3000000 && len(found) < 8; try++ {
+		b := &rc.Board{Ep: -1, Full: 20, White: true}
+		wk := r.Intn(16) // white king on rank 1-2
+		bk := 40 + r.Intn(24)
+		b.Sq[wk], b.Sq[bk] = 'K', 'k'
+		pf := r.Intn(8)
+		if b.Sq[rc.Sq(pf, 1)] != 0 {
+			continue
+		}
+		b.Sq[rc.Sq(pf, 1)] = 'P'
+		n := 2 + r.Intn(4)
+		for i := 0; i < n; i++ {
+			sq := r.Intn(64)
+			if b.Sq[sq] == 0 {
+				b.Sq[sq] = "qrbnqr"[r.Intn(6)]
+			}
+		}
+		if b.Validate() != nil {
+			continue
+		}
+		l := b.Legal()
+		if len(l) == 1 && b.Sq[l[0].From] == 'P' && l[0].To-l[0].From == 16 {
+			f := b.FEN()
+			if !found[f] {
+				found[f] = true
+				fmt.Println(f, l[0].UCI())
+			}
+		}
 	}
 }
